@@ -21,6 +21,8 @@ fn main() {
         "twin-record" => xv::twin::cmd_record(rest),
         "meta-replay" => xv::twin::cmd_meta_replay(rest),
         "meta-record" => xv::twin::cmd_meta_record(rest),
+        "bits-replay" => xv::bitsrep::cmd_replay(rest),
+        "bits-record" => xv::bitsrep::cmd_record(rest),
         other => {
             eprintln!("unknown subcommand {}", other);
             2
